@@ -28,7 +28,18 @@ def gen_job(verif_seed, tier, index):
     job, st = jobgen.base_job(PROP, verif_seed, tier, index, PROFILE)
     g = st.gen
     spec = job["spec"]
-    mode = g.choice(["geom", "geom", "rw", "rw", "dist", "pers", "cycle", "cycle", "mix"])
+    mode = g.choice(["geom", "geom", "rw", "rw", "dist", "dist", "pers", "cycle", "cycle", "mix"])
+    if mode in ("dist", "pers"):
+        # distance-type restraints need room: the first molecule type becomes a linear chain of 8-14 residues
+        mt = spec["moltypes"][0]
+        n = g.randint(8, 14)
+        names = sorted(spec["restypes"])
+        mt["shape"] = "linear"
+        mt["residues"] = [g.choice(names) for _ in range(n)] if g.random() < 0.5 else [g.choice(names)] * n
+        mt["edges"] = [[k, k + 1] for k in range(n - 1)]
+        if not any(nm == mt["name"] for nm, _ in spec["molecules"]):
+            spec["molecules"].insert(0, [mt["name"], g.randint(1, 2)])
+        job["opts"].update(topgen.choose_box(g, spec, {"box_modes": ["cubic", "noncubic"]}))
     sizes = max(topgen.est_size(rt) for rt in spec["restypes"].values())
     maxres = max(len(m["residues"]) for m in spec["moltypes"])
     box = job["opts"]["box"]
@@ -45,6 +56,10 @@ def gen_job(verif_seed, tier, index):
     job["c07_mode"] = mode
     if kinds:
         job["build_spec"] = bldgen.gen_build_spec(g, spec, box, kinds, est_size=sizes)
+    if g.random() < 0.25 and mode in ("geom", "rw", "cycle"):
+        # -start on a molecule that also has a persistence length (which fixes the first residue itself) or a
+        # distance restraint spanning the start residue is a contradictory / refused input: not generated
+        jobgen.add_start(job, g)
     rings = sorted({m["name"] for m in spec["moltypes"] if m["shape"] == "ring"
                     and any(n == m["name"] for n, _ in spec["molecules"])})
     if rings and (mode in ("cycle", "mix") or g.random() < 0.3):
